@@ -201,7 +201,9 @@ def smt_L1(tier):
         if (enc[0], list(enc[1])) != (real[0], list(real[1])):
             return {"status": "error", "error": "translator validation failed at n=%d: encoding %r, real class %r" % (n, enc, real)}
     out["validated_points"] = validated
-    tmpdir = tempfile.mkdtemp(prefix="c12smt-")
+    scratch_root = os.path.join(os.path.dirname(os.path.dirname(os.path.abspath(__file__))), ".scratch")
+    os.makedirs(scratch_root, exist_ok=True)
+    tmpdir = tempfile.mkdtemp(prefix="c12smt-", dir=scratch_root)  # not /tmp: see engine/vcheck.py
     try:
         for name, q in qs.items():
             s = z3.Solver()
